@@ -1168,9 +1168,33 @@ bus_connection_get_policy (DBusConnection *connection)
  * INT_MAX increments of the global stamp, or wraparound would break
  * things.
  */
+#ifdef DBUS_VERIF_SIM
+/* Verification hook (off by default): lets an in-process simulation harness
+ * start a run with the traversal stamp at a value of its choosing, as if the
+ * bus had already routed that many messages. */
+static int _bus_verif_stamp_pending = 0;
+static int _bus_verif_stamp_value = 0;
+
+void _bus_verif_set_stamp (int value);
+
+void
+_bus_verif_set_stamp (int value)
+{
+  _bus_verif_stamp_pending = 1;
+  _bus_verif_stamp_value = value;
+}
+#endif
+
 void
 bus_connections_increment_stamp (BusConnections *connections)
 {
+#ifdef DBUS_VERIF_SIM
+  if (_bus_verif_stamp_pending)
+    {
+      connections->stamp = _bus_verif_stamp_value;
+      _bus_verif_stamp_pending = 0;
+    }
+#endif
   connections->stamp += 1;
 }
 
